@@ -134,6 +134,10 @@ class Tr:
             return "str" if len(n.args) == 2 else "optstr"
         if isinstance(n, ast.Call) and self._helper_name(n) in self.helper_types:
             return self.helper_types[self._helper_name(n)]
+        if isinstance(n, ast.Call) and isinstance(n.func, ast.Attribute) and n.func.attr == "find" and self.spec.get("find_names"):
+            return "int"
+        if isinstance(n, ast.BinOp) and self.typ(n.left) == "int":
+            return "int"
         if isinstance(n, ast.IfExp):
             return self.typ(n.body)
         if isinstance(n, ast.BoolOp):
@@ -342,6 +346,11 @@ class Tr:
         if isinstance(n, ast.Subscript) and isinstance(n.slice, ast.Slice) and n.slice.lower is None and n.slice.step is None and n.slice.upper is not None \
                 and self.typ(n.slice.upper) == "num" and self.spec.get("slices"):
             return f"(({self.e(n.value)}).take {self.e(n.slice.upper)})"           # x[:n] for a non-negative n
+        if isinstance(n, ast.Subscript) and isinstance(n.slice, ast.Slice) and n.slice.step is None and self.spec.get("slices") \
+                and (n.slice.lower is None) != (n.slice.upper is None) and self.typ(n.slice.lower or n.slice.upper) == "int":
+            # an index computed from find(): used only behind a `>= 0` test (a negative index would count from the end)
+            b = n.slice.lower or n.slice.upper
+            return f"(({self.e(n.value)}).{'drop' if n.slice.lower is not None else 'take'} ({self.e(b)}).toNat)"
         if isinstance(n, ast.Subscript) and isinstance(n.slice, ast.Slice) and n.slice.upper is None and n.slice.step is None and n.slice.lower is not None:
             return f"(({self.e(n.value)}).drop {self.e(n.slice.lower)})"
         if isinstance(n, ast.Subscript) and isinstance(n.slice, ast.UnaryOp) and isinstance(n.slice.op, ast.USub) \
@@ -825,6 +834,18 @@ class Tr:
             d = self.dotted(t)
             if d is None:
                 raise Unsupported("assignment target")
+            if (isinstance(t, ast.Name) and self.dotted(s.value) is not None and self.dotted(s.value).startswith("self.") and self.dotted(s.value) in self.rename
+                    and self.spec.get("aliases_of_self")):
+                # `x = self.attr` for an attribute the spec knows: x is another name for it (never re-bound: checked below)
+                if sum(isinstance(y, ast.Name) and y.id == t.id and isinstance(y.ctx, ast.Store) for st in [s] + list(rest) for y in ast.walk(st)) != 1:
+                    raise Unsupported(f"alias {t.id} is re-bound")
+                src = self.dotted(s.value)
+                self.rename[t.id] = self.rename[src]
+                if src in self.types:
+                    self.types[t.id] = self.types[src]
+                self.alias = dict(getattr(self, "alias", {}))
+                self.alias[t.id] = src
+                return self.block(rest, ind)
             if d in self.spec.get("assign_map", {}):
                 fn, keep = self.spec["assign_map"][d]
                 return f"{ind}let {self.state} := {fn} {self.state}{(' ' + self.e(s.value)) if keep else ''}\n" + self.block(rest, ind)
@@ -1585,7 +1606,7 @@ SPECS = [
          error_classes=("ConnectionError", "TimeoutError"),
          errors={"Peer certificate of ": ".unreadable", "Request timeout": ".timeout"},
          error_ctors={"CertificateChangedError": (".changed", [2, 3])},
-         exc_patterns={"TimeoutError": ".timeout"}, assert_error=".assertion", ctx_finally=True),
+         exc_patterns={"TimeoutError": ".timeout"}, assert_error=".assertion", ctx_finally=True, aliases_of_self=True),
     dict(name="uploadTail", file="client/session.py", cls="GeminiClient", func="upload", mode="except", thread="w", start="last_try",
          header=("def uploadTail {W C R : Type} (E : Cl.TofuEnv W C R) (tofu : Bool) (host port : Nat) (w : W) : W × Except Cl.CErr R :="), ret_type="W × Except Cl.CErr R",
          rename={"self.tofu_db": "tofu", "parsed.hostname": "host", "parsed.port": "port"},
@@ -1605,7 +1626,7 @@ SPECS = [
          error_classes=("ConnectionError", "TimeoutError"),
          errors={"Peer certificate of ": ".unreadable", "Upload timeout": ".timeout"},
          error_ctors={"CertificateChangedError": (".changed", [2, 3])},
-         exc_patterns={"TimeoutError": ".timeout"}, assert_error=".assertion", ctx_finally=True),
+         exc_patterns={"TimeoutError": ".timeout"}, assert_error=".assertion", ctx_finally=True, aliases_of_self=True),
     _tofu_spec("tofuVerify", "verify", "def tofuVerify {W H : Type} (D : Misc.SqlEnv W H) (fpOf : Nat → Nat) (w : W) (hostname : H) (port cert : Nat) : W × Except Misc.DbErr (Bool × List Char) :=",
                "W × Except Misc.DbErr (Bool × List Char)"),
     _tofu_spec("tofuTrust", "trust", "def tofuTrust {W H : Type} (D : Misc.SqlEnv W H) (fpOf : Nat → Nat) (w : W) (hostname : H) (port cert : Nat) : W × Except Misc.DbErr Unit :=",
@@ -1635,10 +1656,10 @@ SPECS = [
          ret_type="Cl.CSt × Except Unit Unit",
          fields={"buffer": "buf", "header_received": "headerReceived"},
          contains_names={"CRLF": "Cl.hasCRLF"}, split_names={"CRLF": "Cl.cutCRLF"},
-         rename={"MAX_RESPONSE_HEADER_SIZE": "(Cl.maxHeader : Int)", "MAX_RESPONSE_BODY_SIZE": "Cl.maxBody", "self.transport": "true"},
-         types={"self.buffer": "str", "data": "str", "self.header_received": "bool", "self.status": "optnum", "header_end": "num", "header_line": "str", "body": "str",
+         rename={"MAX_RESPONSE_HEADER_SIZE": "(Cl.maxHeader : Int)", "MAX_RESPONSE_BODY_SIZE": "Cl.maxBody", "self.transport": "true", "CRLF": "Cl.crlf"},
+         types={"self.buffer": "str", "data": "str", "self.header_received": "bool", "self.status": "optnum", "header_end": "int", "header_line": "str", "body": "str",
                 "self.transport": "bool", "MAX_RESPONSE_HEADER_SIZE": "num", "MAX_RESPONSE_BODY_SIZE": "num"},
-         find_names={"CRLF": "Cl.findInt"}, hoist_tests=True, pytypes={"bytes": ("str", "List Nat")},
+         find_names={"CRLF": "Cl.findInt"}, hoist_tests=True, pytypes={"bytes": ("str", "List Nat")}, slices=True,
          raising={"header_line.decode('utf-8')": ("Cl.decodeE env header_line", "text")},
          error_classes=("ValueError", "Exception"),
          errors={"Response header too long": "\"headerTooLong\"", "Response body exceeds maximum size": "\"tooBig\""},
@@ -1649,10 +1670,10 @@ SPECS = [
          ret_type="Cl.CSt × Except Unit Unit",
          fields={"buffer": "buf", "header_received": "headerReceived"},
          contains_names={"CRLF": "Cl.hasCRLF"}, split_names={"CRLF": "Cl.cutCRLF"},
-         rename={"MAX_RESPONSE_HEADER_SIZE": "(Cl.maxHeader : Int)", "MAX_RESPONSE_BODY_SIZE": "Cl.maxBody", "self.transport": "true"},
-         types={"self.buffer": "str", "data": "str", "self.header_received": "bool", "self.status": "optnum", "header_end": "num", "header_line": "str", "body": "str",
+         rename={"MAX_RESPONSE_HEADER_SIZE": "(Cl.maxHeader : Int)", "MAX_RESPONSE_BODY_SIZE": "Cl.maxBody", "self.transport": "true", "CRLF": "Cl.crlf"},
+         types={"self.buffer": "str", "data": "str", "self.header_received": "bool", "self.status": "optnum", "header_end": "int", "header_line": "str", "body": "str",
                 "self.transport": "bool", "MAX_RESPONSE_HEADER_SIZE": "num", "MAX_RESPONSE_BODY_SIZE": "num"},
-         find_names={"CRLF": "Cl.findInt"}, hoist_tests=True, pytypes={"bytes": ("str", "List Nat")},
+         find_names={"CRLF": "Cl.findInt"}, hoist_tests=True, pytypes={"bytes": ("str", "List Nat")}, slices=True,
          raising={"header_line.decode('utf-8')": ("Cl.decodeE env header_line", "text")},
          error_classes=("ValueError", "Exception"),
          errors={"Response header too long": "\"headerTooLong\"", "Response body exceeds maximum size": "\"tooBig\""},
